@@ -1,6 +1,7 @@
 package query
 
 import (
+	"context"
 	"strings"
 
 	"github.com/mithrandie/csvq/lib/option"
@@ -113,4 +114,24 @@ func NewReplaceValues(replace []parser.ReplaceValue) *ReplaceValues {
 		Values: values,
 		Names:  names,
 	}
+}
+
+// EvaluateReplaceValues binds the values of a USING clause: every value is evaluated once, in the
+// scope and under the replace values of the statement that contains the EXECUTE or OPEN, and the
+// placeholders of the prepared statement then refer to the results. (A value that is handed on as
+// an expression is evaluated again by every occurrence of its placeholder and for every row, in the
+// scope of that row.)
+func EvaluateReplaceValues(ctx context.Context, scope *ReferenceScope, replace []parser.ReplaceValue) (*ReplaceValues, error) {
+	bound := make([]parser.ReplaceValue, len(replace))
+	for i := range replace {
+		p, err := Evaluate(ctx, scope, replace[i].Value)
+		if err != nil {
+			return nil, err
+		}
+		bound[i] = parser.ReplaceValue{
+			Value: parser.PrimitiveType{BaseExpr: replace[i].Value.GetBaseExpr(), Value: p},
+			Name:  replace[i].Name,
+		}
+	}
+	return NewReplaceValues(bound), nil
 }
